@@ -217,6 +217,13 @@ func (m *MTProto) makeRequest(data tl.Object, expectedTypes ...reflect.Type) (an
 	case *objects.RpcError:
 		realErr := RpcErrorToNative(r)
 
+		if m.serviceModeActivated {
+			// a step of the key exchange was answered with rpc_error: a reply of the wrong kind, the exchange is
+			// given up with it. Nothing is "processed": PHONE_MIGRATE_X would call Reconnect, which waits for the
+			// connMutex that CreateConnection - the caller of the exchange - is holding
+			return nil, realErr
+		}
+
 		err = m.tryToProcessErr(realErr.(*ErrResponseCode))
 		if err != nil {
 			return nil, err
